@@ -34,6 +34,7 @@
      SwapDepClasses      MX_DEPENDENT / MX_INDEPENDENT exchanged in save_model
      ForgetOutputs       db["outputs"] not restored
      DurDepsOffByOne     symbol indices of the duration dependencies shifted by one
+     ConstMXNotMX        a constant MX attribute classified NOT_MX
      TruthyOptions       option values compared by truthiness only (SwitchedIsFresh must fail)
 
    After Load the same program is requested once more under the SIBLING option set (eva <-> evb, the
@@ -48,24 +49,30 @@ CONSTANTS XKinds,        \* kinds for the four attributes of x: subset of {"none
           Delays,        \* subset of {"none","lit","par","par_lit","par_par2","sum"}
           Opts,          \* subset of {"base","aliases","rcv","ev","eva","evb"}; eva / evb = eliminable_variable_expression
                          \* r"_a\w*" / r"_b\w*": two option sets that differ only in the VALUE of a non-boolean option
+          FKinds,        \* kind of x.fixed: subset of {"none","lit","pdep"}; "pdep" = bound to the Boolean parameter bb.
+                         \* Under option set "rpv" (replace_parameter_values) the parameters are substituted: Real attributes
+                         \* become python numbers, but fixed = bb stays an MX - a CONSTANT MX (class MX_INDEPENDENT)
           Typed, Strs, Outs,      \* subsets of BOOLEAN: Integer/Boolean variables, a String parameter, an output
           SwapDepClasses, ForgetOutputs, DurDepsOffByOne,
+          ConstMXNotMX,  \* mutation: a constant MX attribute is classified NOT_MX (its value is then lost: to_dict stored None)
           TruthyOptions  \* mutation: load_model compares only whether an option is switched on, not its value
 
 VARIABLES prog, phase, model, db, loaded, switched
 
 vars == <<prog, phase, model, db, loaded, switched>>
 
-Attrs == <<"start", "min", "max", "nominal">>
+Attrs == <<"start", "min", "max", "nominal", "fixed">>
+NA == 5
 Nan == 0 - 1000000            \* numeric stand-in for NaN (TLC cannot compare a string with a number)
 
 (* attribute values: defaults, literals and parameter-dependent forms per attribute *)
-Default(at) == [k |-> "py", a |-> 0, b |-> CASE at = "start" -> 0 [] at = "min" -> 0 - 999 [] at = "max" -> 999 [] at = "nominal" -> 0]
-Lit(at)     == [k |-> "py", a |-> 0, b |-> CASE at = "start" -> 1 [] at = "min" -> 0 - 4 [] at = "max" -> 3 [] at = "nominal" -> 2]
+Default(at) == [k |-> "py", a |-> 0, b |-> CASE at = "start" -> 0 [] at = "min" -> 0 - 999 [] at = "max" -> 999 [] at = "nominal" -> 0 [] at = "fixed" -> 0]
+Lit(at)     == [k |-> "py", a |-> 0, b |-> CASE at = "start" -> 1 [] at = "min" -> 0 - 4 [] at = "max" -> 3 [] at = "nominal" -> 2 [] at = "fixed" -> 1]
 PDep(at)    == CASE at = "start"   -> [k |-> "mx", a |-> 1, b |-> 0]          \* p
                  [] at = "min"     -> [k |-> "mx", a |-> 0 - 1, b |-> 0]      \* -p
                  [] at = "max"     -> [k |-> "mx", a |-> 2, b |-> 0]          \* 2*p
                  [] at = "nominal" -> [k |-> "mx", a |-> 1, b |-> 1]          \* p+1
+                 [] at = "fixed"   -> [k |-> "mx", a |-> 1, b |-> 0]          \* bb (Boolean parameter)
 ValueOf(kind, at) == CASE kind = "none" -> Default(at) [] kind = "lit" -> Lit(at) [] kind = "pdep" -> PDep(at)
 
 Eval(v, pv) == IF v.a = 0 THEN v.b ELSE IF pv = Nan THEN Nan ELSE v.a * pv + v.b
@@ -83,25 +90,32 @@ EvalDur(d, pv, qv) == LET tp == IF d.cp = 0 THEN 0 ELSE IF pv = Nan THEN Nan ELS
                           tq == IF d.cq = 0 THEN 0 ELSE IF qv = Nan THEN Nan ELSE d.cq * qv
                       IN  IF tp = Nan \/ tq = Nan THEN Nan ELSE tp + tq + d.c0
 
-Programs == [xk : [1..4 -> XKinds], yk : YKinds, alias : Aliases, delay : Delays, opt : Opts,
+Programs == [xk : [1..4 -> XKinds], xf : FKinds, yk : YKinds, alias : Aliases, delay : Delays, opt : Opts,
              typed : Typed, str : Strs, out : Outs]
 
 (* programs outside the supported subset (calibration, see notes/C19.md) are not in the family *)
-InFamily(pr) == TRUE
+InFamily(pr) == /\ (pr.xf = "pdep" => pr.typed)                      \* fixed = bb needs the Boolean parameter
+                /\ (pr.opt = "rpv" => pr.delay \in {"none", "lit"})     \* replace_parameter_values + parameter-dependent duration: C22's finding
 
 -----------------------------------------------------------------------------
 (* Compile: features -> abstract model.  With detect_aliases an alias y is eliminated and its attributes
    are merged into x by the simplifier (C16's business): those attributes are then "merged" - the spec
    does not predict their value, only that Save/Load must preserve it. *)
 Var(n, cat, ty, at) == [name |-> n, cat |-> cat, ty |-> ty, attrs |-> at]
-NoAttrs == [i \in 1..4 |-> Default(Attrs[i])]
+NoAttrs == [i \in 1..NA |-> Default(Attrs[i])]
+(* replace_parameter_values: every parameter has a number (p = 2, bb = true): Real attributes end up as python numbers,
+   the Boolean one stays a (now constant) MX *)
+Resolved(pr, v, at) == IF pr.opt # "rpv" \/ v.k # "mx" THEN v
+                       ELSE IF at = "fixed" THEN [k |-> "mx", a |-> 0, b |-> Eval(v, 1)]
+                       ELSE [k |-> "py", a |-> 0, b |-> Eval(v, 2)]
 Merged(pr) == pr.opt = "aliases" /\ pr.alias # "none"
 
 CompileOf(pr) ==
-    LET xa == [i \in 1..4 |-> IF Merged(pr) /\ i > 1 /\ (pr.xk[i] # "none" \/ pr.yk # "none")
-                              THEN [k |-> "merged", a |-> IF pr.xk[i] = "pdep" \/ pr.yk = "pdep" THEN 1 ELSE 0, b |-> 0]
-                              ELSE ValueOf(pr.xk[i], Attrs[i])]
-        ya == [i \in 1..4 |-> IF i = 1 THEN Default("start") ELSE ValueOf(pr.yk, Attrs[i])]
+    LET xa == [i \in 1..NA |-> IF i = 5 THEN Resolved(pr, ValueOf(pr.xf, "fixed"), "fixed")
+                               ELSE IF Merged(pr) /\ i > 1 /\ (pr.xk[i] # "none" \/ pr.yk # "none")
+                               THEN [k |-> "merged", a |-> IF pr.xk[i] = "pdep" \/ pr.yk = "pdep" THEN 1 ELSE 0, b |-> 0]
+                               ELSE Resolved(pr, ValueOf(pr.xk[i], Attrs[i]), Attrs[i])]
+        ya == [i \in 1..NA |-> IF i \in {1, 5} THEN Default(Attrs[i]) ELSE Resolved(pr, ValueOf(pr.yk, Attrs[i]), Attrs[i])]
         nd == Len(DurationsOf(pr.delay))
         states == <<Var("x", "states", "float", xa)>>
         algs == (IF Merged(pr) THEN <<>> ELSE <<Var("y", "alg_states", "float", ya)>>)
@@ -115,9 +129,10 @@ CompileOf(pr) ==
                     ELSE [i \in 1..nd |-> Var(IF i = 1 THEN "d1" ELSE "d2", "alg_states", "float", NoAttrs)])
         dname(i) == (IF i = 1 THEN "_pymoca_delay_0" ELSE "_pymoca_delay_1") \o (IF pr.opt = "ev" THEN "[1,1]" ELSE "")
         inputs == [i \in 1..nd |-> Var(dname(i), "inputs", "float", NoAttrs)]      \* one input per delay(...) expression
-                  \o <<Var("u", "inputs", "float", [NoAttrs EXCEPT ![2] = PDep("min")])>>
+                  \o <<Var("u", "inputs", "float", [NoAttrs EXCEPT ![2] = Resolved(pr, PDep("min"), "min")])>>
         consts == IF pr.opt = "rcv" THEN <<>> ELSE <<Var("c", "constants", "float", NoAttrs)>>
-        params == <<Var("p", "parameters", "float", NoAttrs),
+        params == IF pr.opt = "rpv" THEN <<>> ELSE     \* all parameters have numeric values and are substituted away
+                  <<Var("p", "parameters", "float", NoAttrs),
                     Var("q", "parameters", "float", [NoAttrs EXCEPT ![3] = PDep("max")])>>
                   \o (IF pr.typed THEN <<Var("n", "parameters", "int", NoAttrs), Var("bb", "parameters", "bool", NoAttrs)>> ELSE <<>>)
     IN  [vars |-> states \o algs \o inputs \o params \o consts,
@@ -133,16 +148,18 @@ PyNone == [k |-> "None", a |-> 0, b |-> 0]
 MX_DEPENDENT == IF SwapDepClasses THEN 2 ELSE 1
 MX_INDEPENDENT == IF SwapDepClasses THEN 1 ELSE 2
 IsMX(v) == v.k # "py"
-Classify(v) == IF ~IsMX(v) THEN NOT_MX ELSE IF v.a # 0 THEN MX_DEPENDENT ELSE MX_INDEPENDENT
+Classify(v) == IF ~IsMX(v) THEN NOT_MX
+               ELSE IF v.a # 0 THEN MX_DEPENDENT
+               ELSE IF ConstMXNotMX THEN NOT_MX ELSE MX_INDEPENDENT
 DurDeps(d) == {s \in {"p", "q"} : (s = "p" /\ d.cp # 0) \/ (s = "q" /\ d.cq # 0)}
 Shift(S) == IF DurDepsOffByOne THEN {IF s = "p" THEN "q" ELSE "none" : s \in S} ELSE S
 
 SaveOf(m) ==
     [vars |-> [i \in 1..Len(m.vars) |->
                  [name |-> m.vars[i].name, cat |-> m.vars[i].cat, ty |-> m.vars[i].ty,
-                  dict |-> [j \in 1..4 |-> IF IsMX(m.vars[i].attrs[j]) THEN PyNone ELSE m.vars[i].attrs[j]],   \* Variable.to_dict
-                  dep  |-> [j \in 1..4 |-> Classify(m.vars[i].attrs[j])]]],
-     meta |-> [i \in 1..Len(m.vars) |-> [j \in 1..4 |-> [a |-> m.vars[i].attrs[j].a, b |-> m.vars[i].attrs[j].b]]],   \* variable_metadata_function
+                  dict |-> [j \in 1..NA |-> IF IsMX(m.vars[i].attrs[j]) THEN PyNone ELSE m.vars[i].attrs[j]],   \* Variable.to_dict
+                  dep  |-> [j \in 1..NA |-> Classify(m.vars[i].attrs[j])]]],
+     meta |-> [i \in 1..Len(m.vars) |-> [j \in 1..NA |-> [a |-> m.vars[i].attrs[j].a, b |-> m.vars[i].attrs[j].b]]],   \* variable_metadata_function
      outputs |-> m.outputs, ndelay |-> m.ndelay, strings |-> m.strings, alias |-> m.alias,
      durfun |-> m.durations,                                                                                    \* delay_arguments_function
      durdeps |-> [i \in 1..Len(m.durations) |-> Shift(DurDeps(m.durations[i]))]]
@@ -162,7 +179,7 @@ LoadDur(d, i) ==
     IN  [cp |-> raw.cp, cq |-> raw.cq, c0 |-> raw.c0, k |-> "mx", nanp |-> ~keep("p"), nanq |-> ~keep("q")]
 LoadOf(d) ==
     [vars |-> [i \in 1..Len(d.vars) |-> [name |-> d.vars[i].name, cat |-> d.vars[i].cat, ty |-> d.vars[i].ty,
-                                         attrs |-> [j \in 1..4 |-> LoadAttr(d, i, j)]]],
+                                         attrs |-> [j \in 1..NA |-> LoadAttr(d, i, j)]]],
      outputs |-> IF ForgetOutputs THEN <<>> ELSE d.outputs,
      ndelay |-> d.ndelay, strings |-> d.strings, alias |-> d.alias,
      durations |-> [i \in 1..Len(d.durfun) |-> LoadDur(d, i)]]
@@ -181,10 +198,11 @@ SameOptions(o1, o2) == OptValue(o1) = OptValue(o2)
 
 Tags(pr) == {"opt:" \o pr.opt, "alias:" \o pr.alias, "delay:" \o pr.delay, "y:" \o pr.yk}
             \cup (IF pr.typed THEN {"typed"} ELSE {}) \cup (IF pr.str THEN {"string"} ELSE {}) \cup (IF pr.out THEN {"output"} ELSE {})
+            \cup {"fixed:" \o pr.xf}
             \cup {"x:" \o pr.xk[1] \o "," \o pr.xk[2] \o "," \o pr.xk[3] \o "," \o pr.xk[4]}
 Expect == [dep |-> [i \in 1..Len(db.vars) |-> [name |-> db.vars[i].name, cat |-> db.vars[i].cat,
                                                dep |-> db.vars[i].dep,
-                                               sure |-> [j \in 1..4 |-> model.vars[i].attrs[j].k # "merged"]]],
+                                               sure |-> [j \in 1..NA |-> model.vars[i].attrs[j].k # "merged"]]],
            durdeps |-> [i \in 1..Len(db.durdeps) |-> db.durdeps[i]],
            names |-> [i \in 1..Len(db.vars) |-> db.vars[i].name]]
 Load    == /\ phase = "saved" /\ loaded' = LoadOf(db) /\ phase' = "loaded" /\ UNCHANGED <<prog, model, db, switched>>
@@ -205,7 +223,7 @@ SameVars == /\ Len(loaded.vars) = Len(model.vars)
                  /\ loaded.vars[i].name = model.vars[i].name
                  /\ loaded.vars[i].cat = model.vars[i].cat
                  /\ loaded.vars[i].ty = model.vars[i].ty
-SameAttrValues == \A i \in 1..Len(model.vars) : \A j \in 1..4 : \A pv \in ParamValues :
+SameAttrValues == \A i \in 1..Len(model.vars) : \A j \in 1..NA : \A pv \in ParamValues :
                      Eval(loaded.vars[i].attrs[j], pv) = Eval(model.vars[i].attrs[j], pv)
 DurValue(d, pv, qv) == IF "nanp" \in DOMAIN d
                        THEN EvalDur(d, IF d.nanp THEN Nan ELSE pv, IF d.nanq THEN Nan ELSE qv)
@@ -223,6 +241,6 @@ RoundTrip == phase \in {"loaded", "switched"} =>
                 /\ loaded.strings = model.strings /\ loaded.alias = model.alias
 (* what Variable.to_dict hands to pickle never contains an MX *)
 NoMXPickled == phase \in {"saved", "loaded"} =>
-                 \A i \in 1..Len(db.vars) : \A j \in 1..4 :
+                 \A i \in 1..Len(db.vars) : \A j \in 1..NA :
                     (db.vars[i].dict[j] = PyNone) = (db.vars[i].dep[j] # NOT_MX)
 =============================================================================
